@@ -18,10 +18,10 @@ demo=none; demo_with=-; demo_without=-
 if [ -f "$src/demo.sh" ]; then
     demo=demo.sh
     # the seeding agents hard-coded their own worktree path; run a copy pointed at this worktree
-    sed "s|/tmp/seed_$pid|$W|g" "$src/demo.sh" > /tmp/confirm_demo.sh
-    sh /tmp/confirm_demo.sh "$W" >"/tmp/confirm_with.out" 2>&1; demo_with=$?
+    sed "s|/tmp/seed_$pid|$W|g" "$src/demo.sh" > "$src/.confirm_demo.sh"
+    sh "$src/.confirm_demo.sh" "$W" >"/tmp/confirm_with.out" 2>&1; demo_with=$?
     git checkout -q -- .
-    sh /tmp/confirm_demo.sh "$W" >"/tmp/confirm_without.out" 2>&1; demo_without=$?
+    sh "$src/.confirm_demo.sh" "$W" >"/tmp/confirm_without.out" 2>&1; demo_without=$?
 fi
 if [ "$demo" = none ] && [ -f "$src/demo_test.rs" ]; then
     # integration-test style demonstration: the header names the file to create and the test to run
@@ -40,7 +40,7 @@ fi
 git checkout -q -- . ; git clean -fdq -e target
 mkdir -p "$dest"
 cp "$src/patch.diff" "$dest/"
-for f in demo.sh demo_test.rs demo_test.patch meta.md; do [ -f "$src/$f" ] && cp "$src/$f" "$dest/"; done
+for f in demo.sh demo_test.rs demo_test.patch meta.md demo_driver.py script.sh reference_real.sh reference_virtual_test.rs; do [ -f "$src/$f" ] && cp "$src/$f" "$dest/"; done
 python3 - "$dest" "$pid" "$k" "$tests_with" "$demo" "$demo_with" "$demo_without" <<'PY'
 import json,sys
 dest,pid,k,tests,demo,dw,dwo=sys.argv[1:]
